@@ -173,6 +173,18 @@ def handle (j : Json) : Except String Json := do
     pure <| Json.mkObj [("delta", ratToJson (deltaF ref trial dp dn a b)),
                         ("log_arg", ratToJson (logArg ref trial)),
                         ("lt", Json.bool (decide (trial < ref)))]
+  | "score" =>
+    -- `AutoQKHyperModel.adjusted_score`: metric selection + float32 `metric * (1.0 + delta)`
+    let marg ← j.getObjVal? "metric_arg"
+    let m : MetricArg := match marg with
+      | .str s => .str s
+      | .null => .none
+      | _ => .fn
+    let kind := selectMetric m (← getInt j "yt_rank") (← getInt j "yp_rank") (← getInt j "yt_last") (← getInt j "yp_last")
+    let ks := match kind with
+      | .binary => "binary" | .sparse => "sparse" | .categorical => "categorical" | .custom => "custom"
+    pure <| Json.mkObj [("kind", Json.str ks),
+                        ("score", ratToJson (scoreF (← getRat j "metric") (← getRat j "delta")))]
   | "ffapi" =>
     -- a history of public calls on ONE ForgivingFactorBits object (same `getReference` / `getTrial` /
     -- `deltaObj` the theorems are about, float64 instance)
